@@ -269,6 +269,7 @@ def run(ctx, rep):
     _c15.statements_emit_their_expression(F, rep, "C12.get", only=("Value",))
     rep.floor("C12.handler evaluations", T.evals, 25)
     or_never_elided(F, rep)
+    unwrap_into_binds_like_store(F, rep)
 
 
 def seqgen_show(seq):
@@ -437,3 +438,21 @@ def _reach_with_bools(f, removed):
             return reach
         removed |= more
     return f.reachable(0, removed_edges=removed)
+
+
+def unwrap_into_binds_like_store(F, rep):
+    """`a ?= e` *stores into a*: it is an assignment to the variable `a`, like `a = e`.  The handlers of the two (unwrap_into, store) are siblings and
+    must bind the name through the same primitive -- Ctx::register_variable, which looks for an existing `a` in the block frames of the running
+    function and writes through its cell.  A handler that inserts into the top frame instead (register_variable_local) makes `a ?= e` inside an
+    `if` / loop body create a second `a`, and replaces the cell a closure captured."""
+    H = "bytecode::instruction::implementations::"
+    PRIMS = ("bytecode::context::Ctx::register_variable", "bytecode::context::Ctx::register_variable_local", "bytecode::context::Ctx::ref_variable",
+             "bytecode::context::Ctx::update_callback_variable")
+    got = {}
+    for name in ("store", "unwrap_into"):
+        f = handler(F, name)
+        got[name] = sorted({mir.short(c.callee()) for c in f.calls() if c.matches(PRIMS) and not f.blocks[c.bb].get("cleanup")})
+    same = got["store"] == got["unwrap_into"] and got["store"]
+    rep.ob("C12.unwrap-into", "`a ?= e` binds `a` through the same primitive as `a = e`", "ok" if same else "violated",
+           "store uses %s, unwrap_into uses %s" % (got["store"], got["unwrap_into"]), handler(F, "unwrap_into").span, fn=H + "unwrap_into",
+           key="C12.unwrap-into|binds-like-store")
